@@ -4,8 +4,9 @@
 (* (C06) against TMSym.tla.  One obligation per trace line.                *)
 (*                                                                         *)
 (* Lattice lines (sl, slr) are compared with the exact sphere lattice;     *)
-(* sym lines with the group model; law lines (cmp rt cm cr pl ext utm)     *)
-(* carry residuals the driver reduced to integers:                         *)
+(* sym lines with the group model; bp / bpr lines with the branch-point    *)
+(* lattice; cfg lines with the constructor family; law lines (cmp rt cm cr *)
+(* pl ext utm rxy) carry residuals the driver reduced to integers:         *)
 (*   pmW   ground distance (map distance / scale k) in picometres at WGS84 *)
 (*         scale (metres / a * 6378137 * 1e12), clipped to 2e9             *)
 (*   fdeg  1e-15 degree;  e17  1e-17 relative;  e10  1e-10;  udeg 1e-6 deg *)
@@ -79,17 +80,32 @@ GRev(tg, tp, rho) ==
 \* of the exact class returned) and part "gam" (only those laws); part "all" otherwise.
 NearPoleQ(r) == AbsI(r.latq) >= 89000000 /\ AbsI(r.latq) <= 90000000
 NearPoleStrictQ(r) == AbsI(r.latq) > 89000000 /\ AbsI(r.latq) < 90000000
-DoPos(r) == r.part \in {"all", "pos"}
-DoGam(r) == r.part \in {"all", "gam"}
+\* A record of class "tmx-ext-lower" is written as two lines as well: part "strict" (kf "tmx-ext-lower": the plain documented
+\* bounds, rejected and matched by the known finding) and part "coarse" (kf "none": what the finding itself still owes in
+\* that region - the documented bounds times the conditioning factor CondFactor(kl) >= k / k0, finiteness, ranges, the
+\* documented image rectangles away from the south pole, the finite-difference laws with the position bound scaled the same
+\* way).  So a different defect in the lower extended region is reported even though the strict line is matched.
+DoPos(r) == r.part \in {"all", "pos", "coarse", "strict"}
+DoGam(r) == r.part \in {"all", "gam", "coarse", "strict"}
+Coarse(r) == r.part = "coarse"
 \* exg: the record evaluates gamma from Forward of the exact class;  lowMay / lowMust: extendp and the point is in the lower
 \* extended region, judged on the quantised latitude (lat in (-5e-7, 0) is quantised to 0: either label is accepted there)
 KfOK(r, exg, lowMay, lowMust) ==
-  LET ext == r.kf = "tmx-ext-lower" IN
-  /\ r.kf \in {"none", "tmx-gamma-nearpole", "tmx-ext-lower"} /\ r.part \in {"all", "pos", "gam"}
+  LET ext == r.kf = "tmx-ext-lower"  low == r.part \in {"coarse", "strict"} IN
+  /\ r.kf \in {"none", "tmx-gamma-nearpole", "tmx-ext-lower"} /\ r.part \in {"all", "pos", "gam", "coarse", "strict"}
   /\ (r.part = "gam") = (r.kf = "tmx-gamma-nearpole")
+  /\ (r.part = "strict") = ext
   /\ (r.part \in {"pos", "gam"} => exg /\ NearPoleQ(r))
-  /\ (r.part = "all" /\ exg /\ ~ext => ~NearPoleStrictQ(r))
-  /\ (ext => lowMay) /\ (lowMust => ext)
+  /\ (r.part = "all" /\ exg => ~NearPoleStrictQ(r))
+  /\ (low => lowMay) /\ (lowMust => low)
+\* conditioning factor of a coarse line (1 on every other line); kl = floor(log2(k / k0)) of the scale the library returned
+SC(r, kl) == IF Coarse(r) THEN CondFactor(KL(kl)) ELSE 1
+\* GarbageScale (coarse lines): the finding states that the answers are garbage for k > 2^48 (wrong sign of the northing,
+\* 1e20 m).  In the lower extended region the scale is, to a factor of a few, a function of the latitude alone (log
+\* singularity at the south pole): k / k0 < 2^42 for lat >= -75 and k / k0 > 2^48 only south of -79 for every ellipsoid of
+\* the family (flatter ellipsoids have the larger scale).  So, on INPUTS: north of -75 degrees the image must be in the
+\* documented rectangles, the scale returned must be below 2^48, and the second leg of the round trip is judged.
+CoarseDom(r) == r.latq >= -75000000
 
 (* ------------------------------ sphere lattice --------------------------- *)
 \* V = <<nearest integer, deviation in 1e-15>>; 2000000001 = not finite
@@ -180,24 +196,31 @@ InImage(r) == AbsI(r.latq) >= 100 \/ AbsI(r.lamq) < 45000000 \/ r.cls >= 3     \
 RtOK(r) ==
   LET cls == r.cls  fi == r.fi  b == BF(Back(r))  rho == Rho(r)
       low == cls >= 3 /\ r.lower
-      tp == Mul(TolP(cls, fi), 2 * b)
-      tk == Mul(TolK(cls, fi), 2)
-      tg == Add(GFwd(cls, fi, rho), GRev(TolG(cls, fi), Mul(TolP(cls, fi), b), rho))
+      sc == SC(r, r.kl)  sc3 == SC(r, r.kl3)           \* coarse line of the lower extended region: conditioning factor
+      tp == Mul(Mul(TolP(cls, fi), 2 * b), sc)  tp3 == Mul(Mul(TolP(cls, fi), 2 * b), sc3)
+      tk == Mul(Mul(TolK(cls, fi), 2), sc)  tk3 == Mul(Mul(TolK(cls, fi), 2), sc3)
+      tg0 == Add(GFwd(cls, fi, rho), GRev(TolG(cls, fi), Mul(TolP(cls, fi), b), rho))
+      tg == Mul(tg0, sc)  tg3 == Mul(tg0, sc3)
       dom == cls = 0 => S35(r)
       \* EquatorFarSide: next to the far-side equator the rounded northing may exceed 2 y_pole; Reverse accepts it and
       \* Forward answers with the canonical representation over the other pole, so the grid point is not compared there
-      dom2 == (IF cls = 0 THEN r.ang3 <= Ang35 ELSE InImage(r)) /\ ~(Back(r) /\ AbsI(r.lat3) < 100)
+      \* GarbageScale (coarse line): the second leg starts from the image Forward returned
+      dom2 == /\ (IF cls = 0 THEN r.ang3 <= Ang35 ELSE InImage(r)) /\ ~(Back(r) /\ AbsI(r.lat3) < 100)
+              /\ (Coarse(r) => CoarseDom(r))
       kg == cls = 0 \/ r.sing >= SingK
       rfd == r.rfd
   IN
   /\ CfgOK(r) /\ KfOK(r, cls >= 1, low /\ r.latq <= 0, low /\ r.latq < 0)
+  \* OverloadAgreement: "Forward / Reverse without returning the convergence and scale" return the same doubles
+  /\ DoPos(r) => r.ovf /\ r.ovr
+  /\ (Coarse(r) /\ CoarseDom(r)) => KL(r.kl) <= 47
   /\ (dom /\ DoPos(r)) => /\ r.fin /\ r.rng /\ Le(r.frd, tp)
                           /\ (kg => Le(r.frk, tk))
-  /\ (dom /\ dom2 /\ DoPos(r)) => /\ r.fin2 /\ Le(rfd, tp)
-                                   /\ (kg => Le(r.rfk, tk))
+  /\ (dom /\ dom2 /\ DoPos(r)) => /\ r.fin2 /\ Le(rfd, tp3)
+                                   /\ (kg => Le(r.rfk, tk3))
   \* gamma of Forward against gamma of Reverse at the same point (both calls)
   /\ (dom /\ DoGam(r) /\ kg) => Le(r.frg, tg)
-  /\ (dom /\ dom2 /\ DoGam(r) /\ kg) => Le(r.rfg, tg)
+  /\ (dom /\ dom2 /\ DoGam(r) /\ kg) => Le(r.rfg, tg3)
 
 \* T4: the central meridian (and its far side) is mapped with constant scale k0 at true meridian distance
 CmOK(r) ==
@@ -228,10 +251,13 @@ CrOK(r) ==
              /\ (AbsI(r.latq) >= 5000 \/ AbsI(r.lamq) < 45000000 \/ r.cls >= 3)
   IN
   /\ CfgOK(r) /\ KfOK(r, FALSE, r.cls >= 3 /\ r.lower /\ r.latq <= 0, r.cls >= 3 /\ r.lower /\ r.latq < 0)
-  /\ dom => r.fin /\ Le(r.cr1, FDTol) /\ Le(r.cr2, FDTol) /\ Le(r.mk, FDTol) /\ Le(r.rg, FDTol)
+  \* coarse line: a position error of TolEx * CondFactor (ground) at both ends of a stencil of 2e-5 a changes a central difference
+  \* by TolEx * CondFactor / (1e-5 a) = 1.25e-10 * CondFactor relative (8 nm / 63.78 m): 2 units of 1e-10 per unit of CondFactor
+  /\ LET ft == IF Coarse(r) THEN Add(FDTol, Mul(2, CondFactor(KL(r.kl)))) ELSE FDTol IN
+     dom => r.fin /\ Le(r.cr1, ft) /\ Le(r.cr2, ft) /\ Le(r.mk, ft) /\ Le(r.rg, ft)
 
 \* T6: the UTM() singletons equal fresh (WGS84, 0.9996) objects bit for bit
-UtmOK(r) == r.sf /\ r.sr /\ r.ef /\ r.er /\ r.par /\ r.kf = "none" /\ r.part = "all"
+UtmOK(r) == r.sf /\ r.sr /\ r.ef /\ r.er /\ r.par /\ r.ov /\ r.kf = "none" /\ r.part = "all"
 
 \* extendp = true: equals extendp = false on the first quadrant; the image of the extended domain is the documented one
 ExtOK(r) ==
@@ -240,13 +266,110 @@ ExtOK(r) ==
      THEN /\ r.fin /\ r.fin2 /\ Le(r.qd, Mul(TolEx, 2))
           /\ Le(r.qg, Mul(GFwd(1, r.fi, Rho(r)), 2)) /\ Le(r.qk, Mul(TolKe, 2))
      ELSE   /\ r.fin
-            /\ \/ (r.my >= -1 /\ r.mt >= -1 /\ r.mx0 >= -1)
+            \* coarse line: the finding states that the northing has the wrong sign for lat < -83 / k > 2^48; the documented
+            \* image (union of the two rectangles) and a scale below 2^48 are still owed north of -75 (GarbageScale)
+            /\ (Coarse(r) /\ CoarseDom(r)) => KL(r.kl) <= 47
+            /\ (Coarse(r) /\ ~CoarseDom(r))
+               \/ (r.my >= -1 /\ r.mt >= -1 /\ r.mx0 >= -1)
                \/ (r.my <= 1 /\ r.mx >= -1)
+
+(* ------------------------------ branch point of the exact form ------------ *)
+\* geographic side (vectors of MC_TMSym part "bp" and random configurations): Forward at lat = +-0, lam = reflection of
+\* 90 (1 - e) at d ulps.  Expectation BpFwd of TMSym; residuals are ground distances with the documented scale k0 / e.
+BpOK(r) ==
+  LET cls == r.cls
+      e == [slat |-> r.el[1], s |-> r.el[2], b |-> r.el[3], wl |-> 0, w0 |-> 0]  d == r.el[4]
+      ex == BpFwd(cls, e, d)
+      far == e.b = 1
+      tp == Mul(TolEx, BF(far))
+  IN
+  /\ CfgOK(r) /\ cls \in 1..4 /\ e \in BpElem(cls) /\ d \in {-1, 0, 1} /\ r.out = DrvOut(Pred(e))
+  /\ r.kf = "none" /\ r.part = "all" /\ r.latq = 0 /\ r.sing <= 1
+  /\ r.fin /\ r.rfin /\ r.rng
+  /\ r.xsg = ex.xs /\ Le(r.xq, tp)                         \* x = +- k0 a (K(1-e^2) - E(1-e^2))
+  /\ Le(r.yq, tp)                                          \* y = 0 | +- 2 y_pole (EquatorFarSide: either sign)
+  \* side = sign(folded |lon - lon0| - 90 (1 - e)) of the input the library sees (the far-side reflections lam + 180 round)
+  /\ r.side \in {-1, 0, 1} /\ (r.xct => r.side = d)
+  /\ (ex.g[1] # "any" /\ r.side <= 0 => Le(r.gq, TolGe))    \* convergence 0 | +- 180 up to the branch point
+  /\ (ex.k[1] # "any" /\ r.side = 0 => Le(r.kq, TolKe))     \* scale k0 / e at the branch point
+  /\ (cls <= 2 /\ ~far => r.fbit)                           \* pure reflections: bitwise parity (as T3)
+  /\ Le(IF far THEN MinI(r.fd, r.fdm) ELSE r.fd, Mul(tp, 2))
+  /\ Le(r.frd, Mul(tp, 2))                                  \* Reverse o Forward, geographic side
+  /\ Le(IF far THEN MinI(r.rfd, r.rfdm) ELSE r.rfd, Mul(tp, 2))     \* Forward o Reverse o Forward, grid side
+  /\ r.ovf /\ r.ovr
+\* grid side (part "bpr"): Reverse at x = +- (x_bp at d ulps), y = +-0 | +- 2 y_pole returns the branch point (the map is
+\* conformal there with scale k0 / e: the nudge moves the ground point by r.off), and Forward returns the grid point
+BprOK(r) ==
+  LET cls == r.cls  far == r.el[3] = 1  tp == Mul(TolEx, BF(far)) IN
+  /\ CfgOK(r) /\ cls \in 1..4 /\ <<r.el[1], r.el[2], r.el[3]>> \in BprElem(cls) /\ r.el[4] \in -6..6
+  /\ r.kf = "none" /\ r.part = "all"
+  /\ r.fin /\ r.rfin /\ r.rng
+  /\ Le(r.rp, Add(tp, r.off))
+  /\ Le(IF far THEN MinI(r.rfd, r.rfdm) ELSE r.rfd, Mul(tp, 2))
+  /\ r.ovr
+
+(* ------------------------------ constructor family ----------------------- *)
+\* every documented way of writing the constructor gives the same projection bit for bit, the inspectors return the
+\* constructor arguments, TransverseMercator(exact = true) equals TransverseMercatorExact (same extendp) bit for bit
+CtorOK(r) ==
+  /\ CfgOK(r) /\ r.kf = "none" /\ r.part = "all"
+  /\ r.ok /\ r.built /\ r.nf = CtorForms(r.cls) /\ r.dl = Delegate(r.cls)
+  /\ r.dflt /\ r.insp /\ r.dlg
+
+(* ------------------------------ grid plane -------------------------------- *)
+\* Points (x, y) sampled over the documented domain of Reverse.  latq, lamq, ang, sing describe the ANSWER of Reverse;
+\* las = latitude of the answer times the sign of y (classes 0..2) / the latitude (extendp).
+\*   ImagePoint:   las >= 100 udeg: the answer is an image point of Forward of the same class -> Forward returns (x, y) to the
+\*                 plain documented bound, gamma and k of the two calls agree.
+\*   Continuation: las <= -100 (standard convention: "Reverse analytically continues this in the +- x direction"; extendp:
+\*                 the lower extended region) -> Forward of the EXTENDED class returns the (folded) grid point to the documented
+\*                 bound times the conditioning factor (what the known finding tmx-ext-lower still owes).
+\*   in between (the equator) either closure is accepted.
+\*   StripAgreement: on the strip 0 <= y <= y_pole the standard and the extended class are the same analytic function.
+\*   SolverAgreement: series and exact Reverse agree where the answer is an image point within 35 degrees.
+RxyOK(r) ==
+  LET cls == r.cls  fi == r.fi  back == Back(r)  b == BF(back)  rho == Rho(r)
+      img == r.las >= 100  cont == r.las <= -100
+      sc == CondFactor(KL(r.kl))
+      tp == Mul(TolP(cls, fi), 2 * b)
+      tk == Mul(TolK(cls, fi), 2)
+      tg == Add(GFwd(cls, fi, rho), GRev(TolG(cls, fi), Mul(TolP(cls, fi), b), rho))
+      eqb == back /\ AbsI(r.latq) < 100                           \* EquatorFarSide
+      kg == (cls = 0 \/ r.sing >= SingK) /\ (cls = 0 \/ AbsI(r.latq) < 89000000)    \* BranchPoint; tmx-gamma-nearpole is judged on rt / cmp
+      ts == Mul(TolP(0, fi), b)  te == Mul(TolEx, b)
+      solv == /\ r.oth => /\ r.ofin /\ Le(r.sd, Add(ts, te))
+                          /\ (r.sing >= SingK) => /\ Le(r.sdk, Add(TolK(0, fi), TolKe))
+                                                  /\ Le(r.sdg, Add(GRev(TolG(0, fi), ts, rho), GRev(TolGe, te, rho)))
+  IN
+  /\ CfgOK(r) /\ r.part = "all" /\ r.ovr
+  \* proposed known-finding class, re-derived from the quantised inputs: exact class, f = 0.1, 1.25 <= |eta| / B <= 1.27,
+  \* 0.6 <= folded |xi| / L <= 0.95 (Reverse does not converge there; the laws are NOT relaxed)
+  /\ LET axi == IF AbsI(r.xiq) <= 1000000 THEN AbsI(r.xiq) ELSE 2000000 - AbsI(r.xiq)
+         bigf == cls >= 1 /\ fi = 13 /\ AbsI(r.etaq) >= 1250000 /\ AbsI(r.etaq) <= 1270000 /\ axi >= 600000 /\ axi <= 950000
+     IN r.kf = (IF bigf THEN "tmx-rev-bigf" ELSE "none")
+  /\ IF cls = 0 THEN
+       \* Series35 for a grid point: the answer lies within 35 degrees AND the easting is one that a point within 35 degrees
+       \* can have (x / (k0 a) <= asinh(tan 35 deg) = 0.653 on the sphere, + 1 % for the ellipsoids of the family); far outside
+       \* its domain the reverted series returns an unrelated point that may lie within 35 degrees
+       (SeriesOK(fi) /\ r.ang <= Ang35 /\ r.etaa <= 660000) =>
+          /\ r.fin /\ r.fin2 /\ r.rng
+          /\ (~eqb => Le(r.cd, tp) /\ Le(r.ck, tk) /\ Le(r.cg, tg))
+          /\ solv
+     ELSE
+       /\ r.fin /\ r.rng
+       /\ (img /\ ~eqb) => /\ r.fin2 /\ Le(r.cd, tp)
+                            /\ (kg => Le(r.ck, tk) /\ Le(r.cg, tg))
+       /\ (cls >= 3 /\ ~img) => r.fin2 /\ Le(r.cd, Mul(tp, sc))
+       /\ (cls <= 2 /\ r.cx) => /\ r.xfin
+                                 /\ Le(r.xd, IF img THEN tp ELSE Mul(tp, sc))
+                                 /\ (~img => Le(IF cont THEN r.cde ELSE MinI(r.cd, r.cde), Mul(tp, sc)))
+       /\ (img /\ SeriesOK(fi) /\ r.ang <= Ang35) => solv
 
 Obligation(r) ==
   CASE r.e = "sl" -> SlOK(r) [] r.e = "slr" -> SlrOK(r) [] r.e = "sym" -> SymOK(r)
     [] r.e = "cmp" -> CmpOK(r) [] r.e = "rt" -> RtOK(r) [] r.e = "cm" -> CmOK(r) [] r.e = "pl" -> PlOK(r)
     [] r.e = "cr" -> CrOK(r) [] r.e = "utm" -> UtmOK(r) [] r.e = "ext" -> ExtOK(r)
+    [] r.e = "bp" -> BpOK(r) [] r.e = "bpr" -> BprOK(r) [] r.e = "cfg" -> CtorOK(r) [] r.e = "rxy" -> RxyOK(r)
     [] OTHER -> FALSE
 
 Expected(r) ==
@@ -254,6 +377,9 @@ Expected(r) ==
     [] r.e = "slr" -> SphRev(r.lon0, r.y[1])
     [] r.e = "sym" -> DrvOut(Pred([slat |-> r.el[1], s |-> r.el[2], b |-> r.el[3], wl |-> r.el[4], w0 |-> r.el[5]]))
     [] r.e \in {"cmp", "rt", "cm", "pl"} -> <<TolP(r.cls, r.fi), TolK(r.cls, r.fi), GFwd(r.cls, r.fi, Rho(r))>>
+    [] r.e = "bp" -> BpFwd(r.cls, [slat |-> r.el[1], s |-> r.el[2], b |-> r.el[3], wl |-> 0, w0 |-> 0], r.el[4])
+    [] r.e = "rxy" -> <<TolP(r.cls, r.fi), CondFactor(KL(r.kl))>>
+    [] r.e = "cfg" -> <<CtorForms(r.cls), Delegate(r.cls)>>
     [] OTHER -> <<>>
 
 Init == l = 1 /\ KitInit
